@@ -3,6 +3,7 @@ import NixModel.Lemmas.C13Ids
 import NixModel.Lemmas.C13Supplied
 import NixModel.Lemmas.C13IdsRef
 import NixModel.Lemmas.C13IdsRel
+import NixModel.Lemmas.C13Hist
 import NixModel.Generated.FindShape
 import NixModel.Generated.IdLookup
 
@@ -345,6 +346,30 @@ theorem parent_supplied_code (given : List (Nat × String)) (gen : Nat → Strin
         = .ok (some p.key)) :=
   parent_ids_code _ f h (idsOK_of_supplied ok) useCache
 
+/-- **for every history** of create / link / unlink / delete / reopen / copy operations in which `create_section` calls
+may supply ids (`runT`, what the driver runs): when the id texts the history supplies - as `Section.create_new` stores
+them, in whatever spelling - are ids, pairwise different and not the library-made id of a section of the final tree,
+those library-made ids are pairwise different ids, and nobody in the final metadata tree is named like one of these
+texts, then `Section.parent` evaluated on the stored texts is the containing section (none at the top level) through
+every kind of handle -/
+theorem parent_history_code (gen : Nat → String) (ops : List OpT)
+    (genOK : ∀ a ∈ keysL (runT IdLookup.shape {} ops).f.sections, uuidAccepts (gen a) = true ∧
+      ∀ b ∈ keysL (runT IdLookup.shape {} ops).f.sections, gen a = gen b → a = b)
+    (hnd : (suppliedTexts IdLookup.shape ops).Nodup)
+    (hu : ∀ t ∈ suppliedTexts IdLookup.shape ops, uuidAccepts t = true ∧
+      ∀ a ∈ keysL (runT IdLookup.shape {} ops).f.sections, t ≠ gen a)
+    (hn : ∀ n ∈ nodesL (runT IdLookup.shape {} ops).f.sections,
+      (∀ a ∈ keysL (runT IdLookup.shape {} ops).f.sections, n.name ≠ gen a) ∧
+      ∀ t ∈ suppliedTexts IdLookup.shape ops, n.name ≠ t) (useCache : Bool) :
+    let s := runT IdLookup.shape {} ops
+    (∀ x ∈ s.f.sections,
+      sectionParentT FindShape.sectionParent IdLookup.shape (textsOf s.given gen) s.f x.key useCache = .ok none) ∧
+    (∀ p ∈ nodesL s.f.sections, ∀ x ∈ p.children,
+      sectionParentT FindShape.sectionParent IdLookup.shape (textsOf s.given gen) s.f x.key useCache
+        = .ok (some p.key)) :=
+  parent_supplied_code _ gen _ (reachable_wf _ (runT_reachable _ ops))
+    (suppliedOK_of_history _ gen ops genOK hnd hu hn) useCache
+
 /-- **`Source.parent_source` on the stored id texts is the containing source** -/
 theorem parent_source_ids_code (texts : Nat → String) (f : File) (h : WF f) (b : Block) (hb : b ∈ f.blocks)
     (ok : IdsOK texts b.sources) :
@@ -370,20 +395,22 @@ theorem referring_ids_match (texts : Nat → String) (f : File)
   rw [mdMatchT_eq inj hm hk, mdMatch_key (by decide)]
 
 /-- **every `Section.referring_*` property and `referring_objects`, the comparison `x.metadata.id == self.id` made on
-the stored id texts, is the inverse of the stored metadata links** when ids never repeat (uuid4 freshness, the
-caller's ids pairwise different: `textsInj_of_supplied`) - in any spelling -/
-theorem referring_ids_code (texts : Nat → String) (inj : TextsInj texts) (f : File) (hB : Bounded f) (k : Nat) :
+the stored id texts, is the inverse of the stored metadata links** when the id texts of the section asked and of the
+sections the stored links point to do not repeat (uuid4 freshness, the caller's ids pairwise different:
+`textsInjOn_of_supplied`) - in any spelling -/
+theorem referring_ids_code (texts : Nat → String) (f : File) (hB : Bounded f) (k : Nat)
+    (inj : TextsInjOn texts (k :: mdTargets f)) :
     (∀ e ∈ FindShape.sectionReferring,
       refListT texts FindShape.sectionReferring f e.1 k = .ok (e.2.scope.spec f k)) ∧
     refObjectsT texts FindShape.sectionReferring FindShape.sectionReferringObjects f k = .ok (refObjects f k) ∧
     ∀ k', k' ∈ refObjects f k ↔ RefersTo f k' k := by
   refine ⟨fun e he => ?_, ?_, (referring_objects_code f hB k).2⟩
-  · rw [refListT_eq inj]; exact (referring_code f k e he).1
-  · rw [refObjectsT_eq inj]; exact (referring_objects_code f hB k).1
+  · rw [refListT_eq f k inj]; exact (referring_code f k e he).1
+  · rw [refObjectsT_eq f k inj]; exact (referring_objects_code f hB k).1
 
 /-- **`Section.find_related` with every id comparison on the stored texts** (the parent's search, the test
 `self in result`) lists parent, siblings, the section and its children, as `find_related_code` says -/
-theorem find_related_ids_code (texts : Nat → String) (inj : TextsInj texts) (f : File) (h : WF f)
+theorem find_related_ids_code (texts : Nat → String) (f : File) (h : WF f)
     (ok : IdsOK texts f.sections) (useCache : Bool) (filt : Node → Bool) :
     (∀ x ∈ f.sections,
       findRelatedT FindShape.sectionParent FindShape.related IdLookup.shape texts f x.key useCache filt =
@@ -391,7 +418,7 @@ theorem find_related_ids_code (texts : Nat → String) (inj : TextsInj texts) (f
     (∀ p ∈ nodesL f.sections, ∀ x ∈ p.children,
       findRelatedT FindShape.sectionParent FindShape.related IdLookup.shape texts f x.key useCache filt =
         .ok (eraseKey x.key ((p :: p.children).filter filt) ++ (x :: x.children).filter filt)) := by
-  have e := fun k => findRelatedT_eq FindShape.sectionParent FindShape.related IdLookup.shape (by decide) inj ok k
+  have e := fun k => findRelatedT_eq FindShape.sectionParent FindShape.related IdLookup.shape (by decide) ok k
     useCache filt
   simp only [e]
   exact find_related_code f h useCache filt
@@ -519,5 +546,47 @@ example : Ids.containsT Generated.IdLookup.shape [⟨exTexts 0, "a"⟩] "a000000
   rw [id_lookup_code]; decide +kernel
 example : Ids.canonText? (exTexts 1) = some "b1111111-1111-4111-8111-11111111111b" := by decide +kernel
 example : Ids.canonText? (exTexts 3) = some "d3333333-3333-4333-8333-3333333333d3" := by decide +kernel
+
+/-! the same state as the result of a history that supplies the ids (`runT`): `parent_history_code` applies -/
+private def exOps : List Ids.OpT :=
+  [.createSectionOid none "z" "t" (exTexts 0), .plain (.createSection none "a" "t"),
+   .createSectionOid (some 0) "a" "t" (exTexts 2), .createSectionOid (some 2) "a" "t2" (exTexts 3),
+   .plain (.createSection (some 1) "a" "t"), .plain .reopen]
+/-- stand-in for the library-made ids of this example -/
+private def exGen : Nat → String
+  | 0 => "00000000-0000-4000-8000-000000000000"
+  | 1 => "00000000-0000-4000-8000-000000000001"
+  | 2 => "00000000-0000-4000-8000-000000000002"
+  | 3 => "00000000-0000-4000-8000-000000000003"
+  | 4 => "00000000-0000-4000-8000-000000000004"
+  | _ => "00000000-0000-4000-8000-00000000ffff"
+
+private theorem exOps_f : (Ids.runT Generated.IdLookup.shape {} exOps).f = exSections := by rfl
+private theorem exOps_supplied :
+    Ids.suppliedTexts Generated.IdLookup.shape exOps = [exTexts 0, exTexts 2, exTexts 3] := by decide +kernel
+
+example : let s := Ids.runT Generated.IdLookup.shape {} exOps
+    Ids.sectionParentT Generated.FindShape.sectionParent Generated.IdLookup.shape (Ids.textsOf s.given exGen) s.f 3 false
+      = .ok (some 2) := by
+  have hk : keysL exSections.sections = [0, 2, 3, 1, 4] := by rw [exSections_sections]; rfl
+  have hn : (nodesL exSections.sections).map Node.name = ["z", "a", "a", "a", "a"] := by
+    rw [exSections_sections]; rfl
+  have names : ∀ n ∈ nodesL exSections.sections, n.name ∈ ["z", "a", "a", "a", "a"] :=
+    fun n h => hn ▸ List.mem_map.mpr ⟨n, h, rfl⟩
+  have h := parent_history_code exGen exOps
+    (by rw [exOps_f, hk]; decide +kernel)
+    (by rw [exOps_supplied]; decide +kernel)
+    (by rw [exOps_supplied, exOps_f, hk]; decide +kernel)
+    (by
+      rw [exOps_f, hk, exOps_supplied]
+      intro n hn'
+      have := names n hn'
+      revert this
+      generalize n.name = nm
+      revert nm
+      decide +kernel)
+    false
+  simp only [exOps_f] at h ⊢
+  exact h.2 n2 (by rw [exSections_sections]; simp [nodesL, Node.nodes, n2]) n3 (by simp [n2, Node.children])
 
 end Nix.C13
